@@ -235,3 +235,26 @@ def fidx_instantiator(exprs):
             a_, v_, p1, n1 = t1.children(); p2, n2 = t2.arg(2), t2.arg(3)
             out.append(z3.Implies(z3.And(p1 == p2, t1 < n1, n2 > t1), t2 == t1))
     return out
+
+def ascii_instantiator(exprs):
+    """explicit instances of lemmas all_ascii_sub / all_ascii_pointwise over the ground terms of a VC"""
+    apps = _apps_of(exprs, ALLASCII)[:10]; out = []
+    for t1 in apps:
+        for t2 in apps:
+            if t1.get_id() != t2.get_id() and t1.arg(0).eq(t2.arg(0)):
+                out.append(z3.Implies(z3.And(t1, t1.arg(1) <= t2.arg(1), t2.arg(2) <= t1.arg(2)), t2))
+    sels = []
+    seen = set(); stack = list(exprs)
+    while stack:
+        x = stack.pop()
+        if x.get_id() in seen: continue
+        seen.add(x.get_id())
+        if z3.is_quantifier(x): continue
+        if z3.is_app(x):
+            if x.decl().kind() == z3.Z3_OP_SELECT and x.sort() == BV8: sels.append(x)
+            stack.extend(x.children())
+    for t1 in apps:
+        for sx in sels[:12]:
+            if sx.arg(0).eq(t1.arg(0)):
+                kx = sx.arg(1); out.append(z3.Implies(z3.And(t1, t1.arg(1) <= kx, kx < t1.arg(2)), z3.ULT(sx, 0x80)))
+    return out
